@@ -487,6 +487,9 @@ EqTripleClauses(T, prev, ev, post) ==
 GenerateClauses(T, prev, ev, post) ==
     IF ev.out # "ok" THEN {Tag("C19:generate-raised", ev.out)}
     ELSE {Tag("C19:shape", w) : w \in WellShapedWhy(T.gen, ev.inst, ev.nj, ev.nm)}
+      \* "every machine id below M", also for the M the instance itself reports (its num_machines)
+      \cup If(\E o \in AllOps(ev.inst) : \E m \in MSet(ev.inst, o) : ~(m \in 1..ev.nmrep),
+              {Tag("C19:shape", "machine-id-not-below-reported-machine-count")})
       \cup If(\E i \in DOMAIN prev.names[ev.g] : prev.names[ev.g][i] = ev.name, {C("C19:name-reused")})
       \cup If(\E a, b \in DOMAIN post.outs : a < b /\ T.seeds[a] = T.seeds[b] /\ T.seeds[a] # -1
                   /\ ~(IsPrefixOf(post.outs[a], post.outs[b]) \/ IsPrefixOf(post.outs[b], post.outs[a])),
@@ -496,6 +499,11 @@ IterClauses(T, prev, ev, post) ==
   \cup If(ev.out = "ok" /\ ((\E i \in DOMAIN ev.counts : ev.counts[i] # ev.limit) \/ ev.len # ev.limit),
           {C("C19:iteration-count")})
   \cup If(~NoDup(ev.names), {C("C19:name-reused")})
+IterProtoClauses(T, prev, ev, post) ==
+       {Tag("C19:iteration-protocol", <<ev.limit, i, ev.calls[i].r>>) : i \in IterMismatch(ev.calls, 1, 0, ev.limit)}
+  \cup {Tag("C19:iteration-raised", ev.calls[i].r) : i \in {k \in DOMAIN ev.calls : ev.calls[k].r \notin {"yield", "stop", "ok"}}}
+  \cup If(~NoDup(ev.names), {C("C19:name-reused")})
+  \cup If(ev.len # ev.limit, {C("C19:iteration-count")})
 CoverageClauses(T, prev, ev, post) ==
        If(Rng(ev.seen) # 1..ev.M, {Tag("C19:machines-not-drawn-from-all", <<ev.M, ev.k>>)})
 
@@ -612,6 +620,7 @@ DClauses0(T, l, prev, post) ==
            [] ev.a = "Generate"    -> GenerateClauses(T, prev, ev, post)
            [] ev.a = "Iter"        -> IterClauses(T, prev, ev, post)
            [] ev.a = "Coverage"    -> CoverageClauses(T, prev, ev, post)
+           [] ev.a = "IterProto"   -> IterProtoClauses(T, prev, ev, post)
            [] ev.a = "Plot"        -> PlotClauses(T, prev, ev, post)
            [] ev.a = "Frames"      -> FramesClauses(T, prev, ev, post)
            [] ev.a = "Graph"       -> GraphClauses(T, prev, ev, post)
